@@ -39,6 +39,16 @@ type Store struct {
 	directory      string
 	getStateFunc   func() map[int]map[string]internal.KeyData
 	setKeyDataFunc func(database int, key string, data internal.KeyData)
+	// Path of the preamble file when the store opened it itself: it is then replaced by a rename.
+	path string
+	// Number of the rewrite that wrote the preamble; the log that continues it carries the same number.
+	generation uint64
+}
+
+// file is the content of the preamble file. A file written before rewrites were numbered is the bare State map.
+type file struct {
+	Generation uint64
+	State      map[int]map[string]internal.KeyData
 }
 
 func WithClock(clock clock.Clock) func(store *Store) {
@@ -99,9 +109,47 @@ func NewPreambleStore(options ...func(store *Store)) (*Store, error) {
 			return nil, fmt.Errorf("new preamble store -> open file error: %+v", err)
 		}
 		store.rw = f
+		store.path = path.Join(store.directory, "aof", "preamble.bin")
 	}
 
 	return store, nil
+}
+
+// Generation is the number of the rewrite that wrote the preamble last created or restored.
+func (store *Store) Generation() uint64 {
+	return store.generation
+}
+
+// replaceFile writes the new preamble next to the old one, syncs it and renames it into place: a crash
+// leaves either the old preamble or the new one, never a truncated or half-written file.
+func (store *Store) replaceFile(content []byte) error {
+	tmp := store.path + ".tmp"
+	f, err := os.OpenFile(tmp, os.O_WRONLY|os.O_CREATE|os.O_TRUNC, os.ModePerm)
+	if err != nil {
+		return err
+	}
+	if _, err = f.Write(content); err == nil {
+		err = f.Sync()
+	}
+	if cerr := f.Close(); err == nil {
+		err = cerr
+	}
+	if err != nil {
+		return err
+	}
+	_ = store.rw.Close()
+	err = os.Rename(tmp, store.path)
+	// The rename must be on disk before the log is truncated.
+	if dir, derr := os.Open(path.Dir(store.path)); derr == nil {
+		_ = dir.Sync()
+		_ = dir.Close()
+	}
+	rw, oerr := os.OpenFile(store.path, os.O_RDWR|os.O_CREATE, os.ModePerm)
+	if oerr != nil {
+		return oerr
+	}
+	store.rw = rw
+	return err
 }
 
 func (store *Store) CreatePreamble() error {
@@ -111,12 +159,19 @@ func (store *Store) CreatePreamble() error {
 	verifPoint("pre.create.begin")
 	// Get current state.
 	state := internal.FilterExpiredKeys(store.clock.Now(), store.getStateFunc())
-	o, err := json.Marshal(state)
+	o, err := json.Marshal(file{Generation: store.generation + 1, State: state})
 	if err != nil {
 		return err
 	}
 
 	verifPoint("pre.create.after_state")
+	if store.path != "" {
+		if err = store.replaceFile(o); err != nil {
+			return err
+		}
+		store.generation++
+		return nil
+	}
 	// Truncate the preamble first
 	if err = store.rw.Truncate(0); err != nil {
 		return err
@@ -137,6 +192,7 @@ func (store *Store) CreatePreamble() error {
 		return err
 	}
 	verifPoint("pre.create.after_sync")
+	store.generation++
 
 	return nil
 }
@@ -160,10 +216,19 @@ func (store *Store) Restore() error {
 		return nil
 	}
 
-	state := make(map[int]map[string]internal.KeyData)
-	if err = json.Unmarshal(b, &state); err != nil {
+	var f file
+	if err = json.Unmarshal(b, &f); err != nil {
 		return err
 	}
+	state := f.State
+	if f.Generation == 0 {
+		// Written before rewrites were numbered: the file is the bare map.
+		state = make(map[int]map[string]internal.KeyData)
+		if err = json.Unmarshal(b, &state); err != nil {
+			return err
+		}
+	}
+	store.generation = f.Generation
 
 	for database, data := range internal.FilterExpiredKeys(store.clock.Now(), state) {
 		for key, keyData := range data {
